@@ -262,7 +262,6 @@ def q_bsm_magic(env, name=None):
             ctx.msg, ctx.msgL = sym_bytes(ex, ctx, "message")
             ctx.assumptions.append(z3.ULE(ctx.msgL, 252))
             nkeys = len(P.fns[fn].params) - 1
-            ex.recorded = []
             return fn, [Ptr([Opaque("PrivateKey")], 0)] * nkeys + [Ptr([Bytes(ctx.msg)], 0)], ctx
         try:
             res = ex.explore(setup2)
@@ -272,7 +271,7 @@ def q_bsm_magic(env, name=None):
         qr.cases += 1
         for r in res:
             qr.paths += 1
-            rec = [x for x in ex.recorded if x[0].startswith("sign_with")]
+            rec = [x for x in getattr(r, "recorded", []) if x[0].startswith("sign_with")]
             if r.kind != "ok" or not rec:
                 qr.undecided.append(f"{entry}: no signer call recorded ({r.kind} {r.msg})")
                 continue
@@ -323,7 +322,6 @@ def q_bsm_verify(env, name=None):
         ctx.h, harr = arr_bytes("addr_hash", 20, ctx)
         ctx.c, carr = arr_bytes("addr_checksum", 4, ctx)
         addr = Struct("P2PKHAddress", [Int(ctx.p, "u8"), harr, carr])
-        ex.recorded = []
         return f, [Ptr([Bytes(ctx.msg)], 0), Ptr([Opaque("Signature")], 0), Ptr([addr], 0)], ctx
     try:
         results = ex.explore(setup)
@@ -366,7 +364,7 @@ def q_bsm_verify(env, name=None):
         else:
             qr.undecided.append("bsm verify: an accepting path exists where key hash / recovery / verification do not all hold (soundness) — needs manual triage")
     # the messages used for recovery and verification
-    for nm, args in getattr(ex, "recorded", []):
+    for nm, args in [x for r in results for x in getattr(r, "recorded", [])]:
         hashes = [a for a in args if isinstance(a, Enum) and a.name == "SigningHash"]
         if hashes and hashes[0].variant != "Sha256d":
             qr.undecided.append(f"bsm verify: {nm} called with {hashes[0].variant}")
